@@ -26,7 +26,7 @@ META = {
                     "statistical validity on i.i.d. / AR(1) ensembles is not a solver question: not claimed (DESIGN 6)"],
     "bounds": {"quick": "blocking_analysis n = 5, 6 samples, neql 0 and 1; reject_outliers n = 3, 4 rows (2 columns, every column), symbolic m > 0; "
                         "jackknife_ratios n = 3, 4 with complex numerators and denominators",
-               "thorough": "blocking n up to 7 (neql up to 2), reject_outliers n = 5, jackknife n = 5"},
+               "thorough": "blocking n up to 8 (neql up to 2), jackknife n = 5; reject_outliers stays at n <= 4 (n = 5 does not finish)"},
     "outside": "series longer than the bound (block sizes >= 5 never become active), float rounding, the statistical clauses",
 }
 
@@ -439,7 +439,7 @@ def cases(tier):
         out.append({"fn": "blocking", "n": n, "neql": neql, "mode": "values"})
     for n, neql in ((5, 0), (5, 1)) + (((6, 1), (7, 2)) if tier == "thorough" else ()):
         out.append({"fn": "blocking", "n": n, "neql": neql, "mode": "invariance"})
-    for n in (3, 4) + ((5,) if tier == "thorough" else ()):
+    for n in (3, 4):  # n = 5 (median / MAD by sorting network: 5! orderings x thresholds) ran > 55 min without finishing: not run
         for obs in (0, 1):
             out.append({"fn": "outliers", "n": n, "obs": obs})
     for n in (3, 4) + ((5,) if tier == "thorough" else ()):
